@@ -53,12 +53,18 @@ def phase_prefix(gen, phase, sid):
 
 
 def oracle(ctx, tr):
-    authed = False
+    # "authenticated" for the oracle = the server has put USERAUTH_SUCCESS on the wire on this connection.
+    # It deliberately does NOT ask Transport.is_authenticated(): that function is what _ensure_authed consults,
+    # i.e. part of the code under test.
+    granted = False
     alive = True
     hit = False
     for i, (st, r) in enumerate(zip(tr["steps"], tr["real"])):
         p = st["ptype"]
-        if 80 <= p <= 100 and alive and not authed:
+        if r["authed"] and not (granted or any(m == b"\x34" for m in L.sent_list(r))):
+            ctx.fail("reported-authenticated-without-userauth-success", L.describe(tr, i),
+                     "is_authenticated() is true although no USERAUTH_SUCCESS was ever sent on this connection")
+        if 80 <= p <= 100 and alive and not granted:
             hit = True
             case = L.describe(tr, i)
             cbs = L.cb_list(r)
@@ -83,7 +89,7 @@ def oracle(ctx, tr):
                 ctx.fail("request-not-refused", case, "type %d: no reply and the connection stays up" % p)
         if r.get("wire"):
             ctx.disagree("wire: client/server views differ", L.describe(tr, i), None, r["wire"])
-        authed = bool(r["authed"])
+        granted = granted or any(m == b"\x34" for m in L.sent_list(r))
         alive = bool(r["active"])
     return hit
 
